@@ -105,14 +105,24 @@ class Repo:
         self.partially_evaluated = {}
         self._inline_new_helpers()
         if not os.environ.get("VERIF_NO_INLINE"):
-            from .normalize import normalize_table_driven, apply_synonyms
+            from .normalize import apply_synonyms
             self.synonym_rewrites = apply_synonyms(self)
             from .peval import partial_evaluate
             self.partially_evaluated = partial_evaluate(self)
             if self.partially_evaluated:
                 apply_synonyms(self)
+                # specialisation can expose further helper calls in statement position (star-args expanded, closures
+                # resolved): one more round of splicing and specialisation
+                if self.new_functions:
+                    before = {k: list(v) for k, v in self.inlined.items()}
+                    self._inline_new_helpers(merge=True)
+                    if self.inlined != before:
+                        more = partial_evaluate(self)
+                        for k, v in more.items():
+                            self.partially_evaluated.setdefault(k, []).extend(v)
+                        apply_synonyms(self)
 
-    def _inline_new_helpers(self):
+    def _inline_new_helpers(self, merge=False):
         """functions that are not in the reviewed baseline table (helpers introduced by a later change) are analysed at
         their call sites: their bodies are spliced into the callers (see engine/inliner.py)"""
         import json
@@ -126,7 +136,12 @@ class Repo:
         from .astutil import resolve_helper, bind_args
         from .inliner import inline_new_helpers
         self.new_functions = sorted(new)
-        self.inlined = inline_new_helpers(self, new, resolve_helper, bind_args)
+        rep = inline_new_helpers(self, new, resolve_helper, bind_args)
+        if merge:
+            for k, v in rep.items():
+                self.inlined.setdefault(k, []).extend(v)
+        else:
+            self.inlined = rep
         # a new helper is *absorbed* when it was spliced somewhere and no call to it remains anywhere in the analysed program:
         # its statements are then judged where they run (in the callers), not a second time out of context
         spliced = {h for hs in self.inlined.values() for h in hs}
